@@ -607,7 +607,7 @@ func (g *Gen) frameItems(ctx *specCtx, e Expr) []frameItem {
 		base := g.evalSpec(ctx, x.X)
 		if s, ok := base.(SliceV); ok {
 			i := g.evalSpec(ctx, x.I).(IntV).T
-			loc = PtrV{RootKey: typeKey(s.Elem), Ref: s.Ref, Idx: g.add(s.Off, i), Elem: s.Elem}
+			loc = PtrV{RootKey: typeKey(s.Elem), Ref: s.Ref, Idx: g.elemIdx(s.Off, i), Elem: s.Elem}
 		}
 	}
 	if loc == nil {
